@@ -15,6 +15,10 @@
 // sha256. A mutant the library accepts although its canonical signed text differs from the
 // original is reported as inconclusive (trusted-base anomaly), not as a helm violation.
 //
+// Sequences of operations that share one repository cache / destination directory (leftovers of
+// failed, deferred or unverified fetches; keyring, upstream or cache content changed in between)
+// are in reuse.go, with their hard-clause oracle.
+//
 // Don't-care zones: which error is returned; spelling variants of the digest (upper-case hex,
 // missing "sha256:" prefix) are not generated; VerifyIfPossible / the dependency manager when NO provenance
 // file is available (proceeding is the documented behaviour; with a provenance file present a
@@ -63,7 +67,7 @@ func init() {
 	core.Register(&core.Prop{
 		ID:    "C17",
 		Level: "exploration",
-		Rule: "seeded charts packaged and signed by helm (action.Package --sign and Signatory.ClearSign) with OpenPGP RSA keys generated per worker; per chart: every byte position (stride-sampled to ~240 positions per part in the quick tier; thorough: all positions, all 8 bit flips at every 4th) of archive, clear-signed headers+body and signature armor × {bit flip, byte replacement, insertion, deletion, truncation}; structural mutants (re-signed messages with swapped / extra / missing file entries, other signer, other hash, duplicated / prefixed blocks, several clear-signed blocks (untrusted-key block vouching for a tampered archive before / after / around the genuine block, blank-line and text gaps) with the tampered archive on disk, CRLF, trailing blanks, header changes, second signature block); keyrings {signer, signer+others, others, empty, missing, secret ring, same user id other key}; keyring files rewritten in place between verifications (same path, same process: signer removed / added / file emptied / removed / replaced by rename); renamed / moved archives incl. names not ending in .tgz (.tar.gz, .tar, none, .zip, ...; untouched and tampered bytes) by direct URL, repository index reference and dependency manager; through Signatory.Verify and downloader.VerifyChart (all mutants) and action.Verify, LocateChart(Verify), DownloadTo(VerifyAlways/VerifyIfPossible/VerifyLater), action.Pull with --verify × --prov × --untar (sampled + all structural) and Manager.Update(VerifyIfPossible/VerifyAlways) / Manager.Build(VerifyIfPossible) on a local-server repository dependency (the dependency whose verification must fail must give an error and must not reach charts/). " +
+		Rule: "seeded charts packaged and signed by helm (action.Package --sign and Signatory.ClearSign) with OpenPGP RSA keys generated per worker; per chart: every byte position (stride-sampled to ~240 positions per part in the quick tier; thorough: all positions, all 8 bit flips at every 4th) of archive, clear-signed headers+body and signature armor × {bit flip, byte replacement, insertion, deletion, truncation}; structural mutants (re-signed messages with swapped / extra / missing file entries, other signer, other hash, duplicated / prefixed blocks, several clear-signed blocks (untrusted-key block vouching for a tampered archive before / after / around the genuine block, blank-line and text gaps) with the tampered archive on disk, CRLF, trailing blanks, header changes, second signature block); keyrings {signer, signer+others, others, empty, missing, secret ring, same user id other key}; keyring files rewritten in place between verifications (same path, same process: signer removed / added / file emptied / removed / replaced by rename); renamed / moved archives incl. names not ending in .tgz (.tar.gz, .tar, none, .zip, ...; untouched and tampered bytes) by direct URL, repository index reference and dependency manager; through Signatory.Verify and downloader.VerifyChart (all mutants) and action.Verify, LocateChart(Verify), DownloadTo(VerifyAlways/VerifyIfPossible/VerifyLater), action.Pull with --verify × --prov × --untar (sampled + all structural) and Manager.Update(VerifyIfPossible/VerifyAlways) / Manager.Build(VerifyIfPossible) on a local-server repository dependency (the dependency whose verification must fail must give an error and must not reach charts/); sequences of operations sharing ONE repository cache / destination directory and one chart reference (URL and repo/chart), so that the leftovers of an earlier step are on disk for the next: failed verification retried, deferred (VerifyLater / pull --prov) or unverified fetch followed by a verifying one, keyring changed after a verified fetch, upstream or cache content replaced after a verified fetch, archive+provenance planted in the cache, provenance withdrawn upstream — every verifying step that succeeds must hand out exactly the signed bytes with the signer in the keyring as it is now, and must succeed when the genuine pair is served and the signer is trusted. " +
 			"distinct_nontrivial counts (part, mutation kind, expected outcome, entry point) tuples.",
 		Assumptions: []string{
 			"golang.org/x/crypto/openpgp (clearsign.Decode, CheckDetachedSignature, armor) is the trusted definition of 'valid signature by a key in the keyring'",
@@ -885,6 +889,7 @@ func run(cs core.Case, verbose bool) core.Result {
 
 	case "structural":
 		c.structural(rng, origBlk)
+		c.reuse(rng)
 	}
 	if d.Group == "structural" {
 		res.Sample = map[string]any{"chart_archive": w.base, "archive_bytes": len(w.archive), "prov_bytes": len(w.prov), "signed_via": w.via, "sha256": w.sum}
@@ -1292,6 +1297,9 @@ func post(a *core.Agg) string {
 	}
 	if rej < 1000 || acc < 10 {
 		return fmt.Sprintf("too few mutants classified (accept %d, reject %d)", acc, rej)
+	}
+	if a.Stats["reuse_steps_reject"] < 100 || a.Stats["reuse_steps_accept"] < 30 {
+		return fmt.Sprintf("too few steps in shared-cache sequences (accept %d, reject %d)", a.Stats["reuse_steps_accept"], a.Stats["reuse_steps_reject"])
 	}
 	return ""
 }
